@@ -1,7 +1,9 @@
 package main
 
 import (
+	"fmt"
 	"os"
+	"os/exec"
 	"path/filepath"
 	"strings"
 )
@@ -30,5 +32,75 @@ func extraOverlayFiles(work string) (map[string]string, error) {
 	if err != nil && !os.IsNotExist(err) {
 		return nil, err
 	}
+	if os.Getenv("VERIF_NO_MAP_OVERLAY") == "" {
+		if err := mapOverlay(work, out); err != nil {
+			return nil, err
+		}
+	}
 	return out, nil
+}
+
+// mapOverlay makes Go map iteration order a deterministic function of the
+// insertion history: overlay copies of four GOROOT files in which the per-map
+// hash seed, the iteration offsets and the process hash key are constants
+// (DESIGN §3.7). Residual: stack-allocated maps that grow past 8 entries get
+// their seed from a compiler-emitted runtime.rand call and stay random.
+func mapOverlay(work string, out map[string]string) error {
+	cmd := exec.Command(goBin, "env", "GOROOT")
+	cmd.Env = goEnv()
+	b, err := cmd.Output()
+	if err != nil {
+		return fmt.Errorf("go env GOROOT: %v", err)
+	}
+	goroot := strings.TrimSpace(string(b))
+	dst := filepath.Join(work, "overlay-goroot")
+	edit := func(rel string, f func(string) (string, error)) error {
+		src := filepath.Join(goroot, "src", rel)
+		data, err := os.ReadFile(src)
+		if err != nil {
+			return err
+		}
+		res, err := f(string(data))
+		if err != nil {
+			return fmt.Errorf("%s: %v", rel, err)
+		}
+		d := filepath.Join(dst, rel)
+		if err := writeIfChanged(d, []byte(res)); err != nil {
+			return err
+		}
+		out[src] = d
+		return nil
+	}
+	replaceN := func(s, old, new string, want int) (string, error) {
+		if n := strings.Count(s, old); n != want {
+			return "", fmt.Errorf("expected %d occurrences of %q, found %d (toolchain changed?)", want, old, n)
+		}
+		return strings.ReplaceAll(s, old, new), nil
+	}
+	if err := edit("internal/runtime/maps/map.go", func(s string) (string, error) {
+		return replaceN(s, "uintptr(rand())", "uintptr(detRand())", 4)
+	}); err != nil {
+		return err
+	}
+	if err := edit("internal/runtime/maps/table.go", func(s string) (string, error) {
+		s, err := replaceN(s, "it.entryOffset = rand()", "it.entryOffset = detRand()", 1)
+		if err != nil {
+			return "", err
+		}
+		return replaceN(s, "it.dirOffset = rand()", "it.dirOffset = detRand()", 1)
+	}); err != nil {
+		return err
+	}
+	if err := edit("internal/runtime/maps/runtime.go", func(s string) (string, error) {
+		return s + "\n// detRand replaces the random per-map seed and iteration offsets (simulation build).\nfunc detRand() uint64 { return 0x9e3779b97f4a7c15 }\n", nil
+	}); err != nil {
+		return err
+	}
+	return edit("runtime/alg.go", func(s string) (string, error) {
+		s, err := replaceN(s, "hashkey[i] = uintptr(bootstrapRand())", "hashkey[i] = uintptr(0x9e3779b97f4a7c15 + uint64(i))", 1)
+		if err != nil {
+			return "", err
+		}
+		return replaceN(s, "key[i] = bootstrapRand()", "key[i] = 0x9e3779b97f4a7c15 + uint64(i)", 1)
+	})
 }
